@@ -17,66 +17,158 @@
         value token; repaired order: parse, tests, descend.  The order of these statements is now
         taken from the C text (gen_order_vnaproperty_vset, gen_order_vnaproperty_vset_subtree) and
         the model runs the body in that order (machine of LV.Err.OrderModel). *)
-Require Import List ZArith Bool.
+Require Import List ZArith QArith Bool.
 Import ListNotations.
 Require Import LV.Err.ErrBase LV.Gen.ErrnoGen LV.Err.OrderModel.
 Open Scope Z_scope.
 
 (* ---------------------------------------------------------------- D17 *)
+(* What _vnacal_new_check_parameter / _vnacal_new_get_parameter see of a cell of the S matrix: the
+   parameter the handle names and - through the vpmr_other pointers - the chain of its correlates.
+     ChNone h                       _vnacal_get_parameter(vcp, h) finds no structure (h out of range, free slot)
+     ChEnd h live unk fmin fmax     scalar, vector or unknown parameter (no recursion); live = not deleted;
+                                    fmin..fmax = what _vnacal_get_parameter_frange answers: 0..infinity (None) for a
+                                    scalar, the frequency range of a vector parameter, for an unknown parameter the
+                                    range of the parameter at the end of its initial-guess chain
+     ChCorr h live sigma other      VNACAL_CORRELATED: sigma = first / last entry of its own sigma frequency vector
+                                    (None: no vector, sigma_frequencies = 1), other = its correlate
+   A deleted parameter that something still refers to keeps its slot and its structure (vpmr_deleted): the
+   pointer chain runs through it, _vnacal_get_parameter on its index answers NULL (live = false). *)
+Inductive pchain : Type :=
+| ChNone (h : Z)
+| ChEnd (h : Z) (live unk : bool) (fmin : Q) (fmax : option Q)
+| ChCorr (h : Z) (live : bool) (sigma : option (Q * Q)) (other : pchain).
+
+Definition chain_handle (c : pchain) : Z :=
+  match c with ChNone h => h | ChEnd h _ _ _ _ => h | ChCorr h _ _ _ => h end.
+Definition chain_live (c : pchain) : bool :=
+  match c with ChNone _ => false | ChEnd _ l _ _ _ => l | ChCorr _ l _ _ => l end.
+
+Definition qlt (a b : Q) : bool := negb (Qle_bool b a).
+
+(* _vnacal_get_parameter_frange: the range of the parameter at the end of the chain ... *)
+Fixpoint chain_end_range (c : pchain) : Q * option Q :=
+  match c with
+  | ChNone _ => (0%Q, None)
+  | ChEnd _ _ _ a b => (a, b)
+  | ChCorr _ _ _ o => chain_end_range o
+  end.
+(* ... narrowed by the sigma frequencies of the parameter the question was about (only of that one) *)
+Definition chain_range (c : pchain) : Q * option Q :=
+  let (a, b) := chain_end_range c in
+  match c with
+  | ChCorr _ _ (Some (smin, smax)) _ =>
+      (if qlt a smin then smin else a,
+       match b with None => Some smax | Some b' => Some (if qlt smax b' then smax else b') end)
+  | _ => (a, b)
+  end.
+
+(* check_single_frequency_range: cal = first / last calibration frequency when
+   vn_frequencies_valid && vn_frequencies > 0 (None: the test is not made) *)
+Definition range_fits (e : Q) (cal : option (Q * Q)) (c : pchain) : bool :=
+  match cal with
+  | None => true
+  | Some (lo, hi) =>
+      let (a, b) := chain_range c in
+      negb (qlt ((1 + e) * lo)%Q a || match b with None => false | Some b' => qlt b' ((1 - e) * hi)%Q end)
+  end.
+
 Record newsum : Type := mknew {
-  n_registered : list Z;      (* handles in vn_parameter_hash, in registration order *)
-  n_unknowns : Z;             (* vn_unknown_parameters *)
-  n_measurements : Z          (* vn_measurement_count *)
+  n_registered : list Z;        (* handles in vn_parameter_hash, in registration order *)
+  n_unknowns : Z;               (* vn_unknown_parameters *)
+  n_correlated : Z;             (* vn_correlated_parameters *)
+  n_measurements : Z;           (* vn_measurement_count *)
+  n_calrange : option (Q * Q)   (* first / last calibration frequency, see range_fits *)
 }.
 
-Section AddCommon.
-  Variable valid : Z -> bool.       (* _vnacal_get_parameter(vcp, h) != NULL (and frequency range ok) *)
-  Variable unknown : Z -> bool.     (* type VNACAL_UNKNOWN *)
+Definition known (s : newsum) (h : Z) : bool := existsb (Z.eqb h) (n_registered s).
 
-  Definition known (s : newsum) (h : Z) : bool := existsb (Z.eqb h) (n_registered s).
+(* the tests both functions make on the parameter itself, in the order of the C text:
+   _vnacal_get_parameter != NULL, check_single_frequency_range *)
+Definition node_ok (s : newsum) (c : pchain) : bool :=
+  chain_live c && range_fits gen_f_extrapolation (n_calrange s) c.
 
-  (* _vnacal_new_check_parameter: the tests of _vnacal_new_get_parameter without the insertion *)
-  Definition check_parameter (s : newsum) (h : Z) : bool :=
-    ((0 <=? h) && known s h) || valid h.
+(* _vnacal_new_check_parameter: hash look-up, the tests on the parameter, and - when the C text has the
+   recursion (rc) - the same for the correlate of a correlated parameter; nothing is added *)
+Fixpoint check_chain_with (rc : bool) (s : newsum) (c : pchain) : bool :=
+  if (0 <=? chain_handle c) && known s (chain_handle c) then true
+  else match c with
+       | ChNone _ => false
+       | ChEnd _ _ _ _ _ => node_ok s c
+       | ChCorr _ _ _ o => node_ok s c && (if rc then check_chain_with rc s o else true)
+       end.
 
-  (* _vnacal_new_get_parameter (correlated parameters left out) *)
-  Definition get_parameter (s : newsum) (h : Z) : option newsum :=
-    if (0 <=? h) && known s h then Some s
-    else if negb (valid h) then None
-    else Some (mknew (n_registered s ++ [h]) (if unknown h then n_unknowns s + 1 else n_unknowns s) (n_measurements s)).
+Definition register (s : newsum) (h : Z) (unk corr : bool) : newsum :=
+  mknew (n_registered s ++ [h]) (if unk || corr then n_unknowns s + 1 else n_unknowns s)
+        (if corr then n_correlated s + 1 else n_correlated s) (n_measurements s) (n_calrange s).
 
-  (* the registration loop *)
-  Fixpoint register_cells (s : newsum) (cells : list Z) : newsum * bool :=
-    match cells with
-    | [] => (s, true)
-    | h :: r => match get_parameter s h with
-                | None => (s, false)                 (* goto out: s keeps what was registered so far *)
-                | Some s' => register_cells s' r
-                end
-    end.
+(* _vnacal_new_get_parameter: the same tests; a correlated parameter first gets (registers) its correlate
+   (rg: the C text has the recursion), then the parameter is inserted into the hash and - unknown or
+   correlated - into the unknown list.  A failure at any depth returns NULL before anything of THIS call
+   has been inserted. *)
+Fixpoint get_chain_with (rg : bool) (s : newsum) (c : pchain) : option newsum :=
+  if (0 <=? chain_handle c) && known s (chain_handle c) then Some s
+  else match c with
+       | ChNone _ => None
+       | ChEnd h _ unk _ _ => if node_ok s c then Some (register s h unk false) else None
+       | ChCorr h _ _ o =>
+           if node_ok s c then
+             if rg then match get_chain_with rg s o with
+                        | None => None
+                        | Some s' => Some (register s' h false true)
+                        end
+             else Some (register s h false true)
+           else None
+       end.
 
-  Definition link (s : newsum) : newsum := mknew (n_registered s) (n_unknowns s) (n_measurements s + 1).
+(* the registration loop of _vnacal_new_add_common *)
+Fixpoint register_cells_with (rg : bool) (s : newsum) (cells : list pchain) : newsum * bool :=
+  match cells with
+  | [] => (s, true)
+  | c :: r => match get_chain_with rg s c with
+              | None => (s, false)                 (* goto out: s keeps what was registered so far *)
+              | Some s' => register_cells_with rg s' r
+              end
+  end.
 
-  (* no validation pass (the order before the repair of D17): register as you go, link at the end *)
-  Definition add_standard_register_first (s : newsum) (cells : list Z) : newsum * outcome :=
-    match register_cells s cells with
+Definition link (s : newsum) : newsum :=
+  mknew (n_registered s) (n_unknowns s) (n_correlated s) (n_measurements s + 1) (n_calrange s).
+
+(* no validation pass (the order before the repair of D17): register as you go, link at the end *)
+Definition add_standard_register_first_with (rg : bool) (s : newsum) (cells : list pchain) : newsum * outcome :=
+  match register_cells_with rg s cells with
+  | (s', true) => (link s', Pass)
+  | (s', false) => (s', Refuse VM1 (Via USAGE))
+  end.
+
+(* validate every cell first (repaired order) *)
+Definition add_standard_validate_first_with (rc rg : bool) (s : newsum) (cells : list pchain) : newsum * outcome :=
+  if forallb (check_chain_with rc s) cells then
+    match register_cells_with rg s cells with
     | (s', true) => (link s', Pass)
-    | (s', false) => (s', Refuse VM1 (Via USAGE))
-    end.
+    | (s', false) => (s', Refuse VM1 (Via USAGE))      (* unreachable when rc = true: see register_after_check *)
+    end
+  else (s, Refuse VM1 (Via USAGE)).
 
-  (* validate every cell first (repaired order) *)
-  Definition add_standard_validate_first (s : newsum) (cells : list Z) : newsum * outcome :=
-    if forallb (check_parameter s) cells then
-      match register_cells s cells with
-      | (s', true) => (link s', Pass)
-      | (s', false) => (s', Refuse VM1 (Via USAGE))      (* unreachable: see register_after_check *)
-      end
-    else (s, Refuse VM1 (Via USAGE)).
+(* as found in the C text: whether _vnacal_new_check_parameter / _vnacal_new_get_parameter walk down to the
+   correlate (gen_check_parameter_recurses, gen_get_parameter_recurses), whether the validation loop precedes
+   the registration loop (gen_add_common_prevalidates) *)
+Definition check_parameter : newsum -> pchain -> bool := check_chain_with gen_check_parameter_recurses.
+Definition get_parameter : newsum -> pchain -> option newsum := get_chain_with gen_get_parameter_recurses.
+Definition register_cells : newsum -> list pchain -> newsum * bool := register_cells_with gen_get_parameter_recurses.
+Definition add_standard_register_first : newsum -> list pchain -> newsum * outcome :=
+  add_standard_register_first_with gen_get_parameter_recurses.
+Definition add_standard_validate_first : newsum -> list pchain -> newsum * outcome :=
+  add_standard_validate_first_with gen_check_parameter_recurses gen_get_parameter_recurses.
 
-  (* the order found in the working tree *)
-  Definition add_standard_current (s : newsum) (cells : list Z) : newsum * outcome :=
-    if gen_add_common_prevalidates then add_standard_validate_first s cells else add_standard_register_first s cells.
-End AddCommon.
+(* the order found in the working tree *)
+Definition add_standard_current (s : newsum) (cells : list pchain) : newsum * outcome :=
+  if gen_add_common_prevalidates then add_standard_validate_first s cells else add_standard_register_first s cells.
+
+(* a cell without a chain, from a table of the vnacal_t that has no correlated parameters:
+   valid h = the handle names a live parameter whose range fits, unknown h = its type is VNACAL_UNKNOWN *)
+Definition flat_cell (valid unknown : Z -> bool) (h : Z) : pchain :=
+  if valid h then ChEnd h true (unknown h) 0%Q None else ChNone h.
 
 (* ---------------------------------------------------------------- D54 *)
 Inductive ptree : Type :=
